@@ -222,3 +222,42 @@ def csv_sequences(rng, rand_bits):
         ([tab(2, 1), tab(30, 4)], [(0, 0), (1, 0), (0, 0)], "csvseq-overwrite-longer-shorter"),
         ([tab(5, 2), tab(7, 3)], [(0, 0), (1, 1), (0, 2)], "csvseq-interleaved"),
     ]
+
+
+# ---------------------------------------------------------------- size of ONE written data array (bytes)
+
+def array_bytes_specs(thorough=False):
+    """specs of large meshes built directly with numpy (`corr.c13.build_big`): a strip of quads on 2 x m lattice points
+    (+ one unconnected point when `npoints` is odd).  Every spec is a small literal dict; the field values are a fixed
+    arithmetic function of (salt, index) - no random state - so a replay file stays small and self-contained.
+    raw size of a written array = 8 (UInt64 header) + rows * itemsize * ncomps:
+      2**16:  float64 scalar on 8191 points = 65536 exactly (8190 / 8192 / 8193: just below / above)
+      2**20:  float64 scalar on 131071 points = 1 MiB exactly; 3-vector on 43690 / 43691; 3x3 tensor on 14563 / 14564 cells"""
+    def spec(label, npoints, fields, salt):
+        return {"label": label, "npoints": npoints, "fields": fields, "salt": salt}
+    quick = [
+        spec("p6g-array-bytes>1MiB-scalar-f64-131073pts", 131073, [["p", "s", "float64", []], ["p", "b", "int8", []]], 11),
+        spec("p6g-array-bytes>1MiB-vector-f64-43692pts", 43692, [["p", "v", "float64", [3]], ["c", "k", "uint16", []]], 12),
+        spec("p6g-array-bytes>1MiB-tensor-f64-14564cells", 29130, [["c", "t", "float64", [3, 3]], ["p", "w", "float32", [3]]], 13),
+        spec("p6g-array-bytes~2^16-8190pts", 8190, [["p", "s", "float64", []], ["p", "h", "uint16", [4]]], 14),
+        spec("p6g-array-bytes~2^16-8191pts", 8191, [["p", "s", "float64", []], ["p", "h", "int16", [4]], ["p", "i", "int32", [2]]], 15),
+        spec("p6g-array-bytes~2^16-8192pts", 8192, [["p", "s", "float64", []], ["p", "f", "float32", []]], 16),
+        spec("p6g-array-bytes~2^16-8193pts", 8193, [["p", "s", "uint64", []], ["c", "c", "float64", [2]]], 17),
+    ]
+    if not thorough:
+        return quick
+    more = [
+        spec("p6g-array-bytes~2^20-131070pts", 131070, [["p", "s", "float64", []]], 21),
+        spec("p6g-array-bytes~2^20-131071pts", 131071, [["p", "s", "int64", []]], 22),
+        spec("p6g-array-bytes~2^20-131072pts", 131072, [["p", "s", "float64", []], ["p", "f", "float32", [2]]], 23),
+        spec("p6g-array-bytes~2^20-vector-43690pts", 43690, [["p", "v", "float64", [3]]], 24),
+        spec("p6g-array-bytes~2^20-vector-43691pts", 43691, [["p", "v", "uint64", [3]]], 25),
+        spec("p6g-array-bytes~2^20-tensor-14563cells", 29128, [["c", "t", "float64", [3, 3]]], 26),
+        spec("p6g-array-bytes~2^20-tensor-14565cells", 29132, [["c", "t", "int64", [3, 3]]], 27),
+        spec("p6g-array-bytes>1MiB-f32-vector-87382pts", 87382, [["p", "v", "float32", [3]]], 28),
+        spec("p6g-array-bytes>1MiB-u8-9comp-116510pts", 116510, [["p", "t", "uint8", [3, 3]]], 29),
+        spec("p6g-array-bytes>2MiB-scalar-262145pts", 262145, [["p", "s", "float64", []]], 30),
+        spec("p6g-array-bytes~2^16-tensor-910cells", 1822, [["c", "t", "float64", [3, 3]]], 31),
+        spec("p6g-array-bytes~2^16-vector-2730pts", 2730, [["p", "v", "float64", [3]]], 32),
+    ]
+    return quick + more
